@@ -234,6 +234,18 @@ Theorem C09_stale_registry_refuted :
 Proof. exact stale_registry_refuted. Qed.
 Print Assumptions C09_stale_registry_refuted.
 
+(* ---------------------------------------------------------------- index files *)
+
+(* reading an index file ([ name ] atom numbers ...) terminates for every text; after the repair, acceptance implies
+   acceptance with the same groups by the pinned reader, which additionally accepted files whose tail it never read
+   ("[ g ] 1 2 x 3" defined g = (1, 2)) *)
+Theorem C09_index_file_total_and_strict :
+  (forall strict text, parse_index strict text <> IndexOutOfFuel) /\
+  (forall fuel l gs gs', index_loop true fuel l gs = IndexOk gs' -> index_loop false fuel l gs = IndexOk gs') /\
+  (exists text gs, parse_index false text = IndexOk gs /\ parse_index true text = IndexError).
+Proof. split; [exact parse_index_total|split; [exact index_strict_implies_pinned|exact index_pinned_refuted]]. Qed.
+Print Assumptions C09_index_file_total_and_strict.
+
 (* ---------------------------------------------------------------- values: strictness *)
 
 (* _get_keyval_scalar_value_<double> (after the repair) accepts exactly the texts that are ONE number literal
@@ -251,6 +263,16 @@ Theorem C09_int_value_strict : forall data z,
                     int_lit tok z /\ -2147483648 <= z <= 2147483647.
 Proof. exact int_scalar_strict. Qed.
 Print Assumptions C09_int_value_strict.
+
+(* every integer type: long / step_number and size_t (range of the type; for size_t a minus sign is refused after the
+   repair - the pinned rule read "-5" as 18446744073709551611) *)
+Theorem C09_integer_types_strict :
+  (forall lo hi data z, scalar_value (extract_intr lo hi) data = SAccept z <->
+     exists w1 tok w2, data = w1 ++ tok ++ w2 /\ all_space w1 /\ all_space w2 /\ int_lit tok z /\ lo <= z <= hi) /\
+  (scalar_value_lenient extract_size_pinned [45; 53] = SAccept 18446744073709551611 /\
+   scalar_value extract_size [45; 53] = SReject).
+Proof. split; [exact intr_scalar_strict|exact size_negative_refuted]. Qed.
+Print Assumptions C09_integer_types_strict.
 
 (* the rule of the pinned code (one successful extraction before the first failure) violates the statement above:
    "0.5abc", "1 abc", "5.5" for an integer are accepted; this is how the defect was found.  The repaired rule
@@ -289,6 +311,23 @@ Theorem C09_required_keyword_present : forall strict schema conf vs key k,
   ksv_found (key_string_values conf key) = true.
 Proof. exact required_keyword_present. Qed.
 Print Assumptions C09_required_keyword_present.
+
+(* parse modes on one parser object: a keyword looked up with parse_required and absent from the text is an error
+   exactly when no earlier call on that object marked it (value read or default assigned) - always on a fresh
+   object; without parse_required the default is assigned iff parse_override is given or the key was not set before *)
+Theorem C09_parse_modes :
+  (forall st ovr conf key,
+     ksv_found (key_string_values conf key) = false -> ksv_data (key_string_values conf key) = [] ->
+     ko_err (snd (kv_call st true ovr conf key)) = ksv_err (key_string_values conf key) || negb (kv_set st) /\
+     fst (kv_call st true ovr conf key) = st) /\
+  (forall v ovr conf key,
+     ksv_found (key_string_values conf key) = false -> ksv_data (key_string_values conf key) = [] ->
+     ko_err (snd (kv_call {| kv_set := false; kv_val := v |} true ovr conf key)) = true) /\
+  (forall st ovr conf key,
+     ksv_found (key_string_values conf key) = false -> ksv_data (key_string_values conf key) = [] ->
+     ko_val (snd (kv_call st false ovr conf key)) = (if ovr || negb (kv_set st) then KvDefault else kv_val st)).
+Proof. split; [exact kv_required_missing|split; [exact kv_required_missing_fresh|exact kv_default_rule]]. Qed.
+Print Assumptions C09_parse_modes.
 
 (* 3-vectors "( x , y , z )", quaternions and vector values: accepted iff the text is one parenthesised tuple of n
    numbers (read by extract_tuple: '(' number {',' number} ')' with optional white space) and nothing but white
